@@ -117,6 +117,39 @@ pub fn superblock_mix(rng: &mut Rng, spread: usize, dense_ones: usize, sparse_su
     v
 }
 
+// Superblocks of 4096 ones with prescribed spans (distance from the first one of a superblock to the first one of the
+// next). `shape` places the other 4095 ones inside the span: 0 = evenly, 1 = all in the last 8000 bits (every block
+// sample of the superblock has a large offset), 2 = dense at the start and the last one at the very end,
+// 3 = two clusters with the gap in the middle. A ragged tail follows.
+pub fn superblock_spans(rng: &mut Rng, spans: &[usize], shape: usize, invert: bool) -> Vec<bool> {
+    let total: usize = spans.iter().sum();
+    let mut v = vec![false; total];
+    let mut base = 0usize;
+    for (k, &span) in spans.iter().enumerate() {
+        v[base] = true;
+        let sh = if shape == 4 { k % 4 } else { shape };
+        let mut placed = 1usize;
+        let put = |v: &mut Vec<bool>, p: usize, placed: &mut usize| { if *placed < 4096 && p > 0 && p < span && !v[base + p] { v[base + p] = true; *placed += 1; } };
+        match sh {
+            0 => { let step = std::cmp::max(1, span / 4096); let mut p = step; while placed < 4096 && p < span { put(&mut v, p, &mut placed); p += step; } },
+            1 => { let lo = span.saturating_sub(8000); let mut p = std::cmp::max(lo, 1); while placed < 4096 && p < span { if span - p <= 4096 - placed || rng.chance(3, 5) { put(&mut v, p, &mut placed); } p += 1; } },
+            2 => { let mut p = 1; while placed < 4095 && p < span { if rng.chance(3, 4) { put(&mut v, p, &mut placed); } p += 1; } put(&mut v, span - 1, &mut placed); },
+            _ => { let mut p = 1; while placed < 2048 && p < span { if rng.chance(1, 2) { put(&mut v, p, &mut placed); } p += 1; } let mut p = std::cmp::max(span.saturating_sub(6000), p); while placed < 4096 && p < span { if span - p <= 4096 - placed || rng.chance(1, 2) { put(&mut v, p, &mut placed); } p += 1; } },
+        }
+        // Whatever is still missing goes to the free positions at the end of the span.
+        let mut p = span - 1;
+        while placed < 4096 && p > 0 { put(&mut v, p, &mut placed); p -= 1; }
+        base += span;
+    }
+    // Partial last superblock and a ragged end.
+    let tail = 100 + rng.below(3000);
+    for _ in 0..tail { v.push(rng.chance(1, 7)); }
+    if invert {
+        for b in v.iter_mut() { *b = !*b; }
+    }
+    v
+}
+
 //-----------------------------------------------------------------------------
 
 // Sorted distinct positions in 0..n for sparse vectors with huge universes.
